@@ -7,6 +7,7 @@ raise:  st.ctl.handler(st, ExcV)
 """
 import ast
 import fnmatch
+import re
 import z3
 from .types import *
 from . import ops
@@ -624,6 +625,11 @@ class Engine(object):
             side_ids = set(x.get_id() for x in ctx.side)
             st.pc = [h for h in st.pc if (not _has_quant(h)) or h.get_id() in keep_ids or h.get_id() in side_ids] + [f_ for _, f_ in fmls]
             return k(st, NONE_V)
+        if isinstance(f, ast.Name) and f.id == '_snapshot' and getattr(n, '_is_ghost', False):
+            # ghost heap snapshot H = current state, readable in later spec formulas as at(H, e)
+            st.ghost = dict(st.ghost)
+            st.ghost[n.args[0].value] = SV(Ty('heap'), None, None, st.fork())
+            return k(st, NONE_V)
         if isinstance(f, ast.Name) and f.id == '_assume' and getattr(n, '_is_ghost', False):
             # ghost assumption (recorded in the evidence as an assumption of this contract)
             s2 = st.fork()
@@ -646,7 +652,9 @@ class Engine(object):
             ctx = SpecCtx(s2, old=self.entry_state, entry=self.entry_state)
             fml = self.speceval.formula(n.args[0].value, ctx)
             st.assume(*ctx.side)
-            self.oblige('checkpoint/%s' % label, st, fml, getattr(n, 'lineno', None))
+            o_ = self.oblige('checkpoint/%s' % label, st, fml, getattr(n, 'lineno', None))
+            o_.ctx = ctx          # for the developer probe tool
+            o_.engine = self
             st.assume(fml)
             return k(st, NONE_V)
         if isinstance(f, ast.Name):
@@ -724,7 +732,20 @@ class Engine(object):
                 self.externs_used.add('dict.' + mname)
                 return self.method_externs[('dict', mname)](self, n, o, pos, kws, st, k)
             if fi is None:
-                raise Unsupported('method %s.%s not found (line %s)' % (cname, mname, n.lineno))
+                # not a method of the static class: Python raises AttributeError unless the object belongs to a subclass that
+                # has it.  When all such subclasses share one definition, dispatch there and record the downcast as an assumption.
+                cands = {}
+                for c in self.repo.subclasses(cname):
+                    f2 = self.repo.find_method(c, mname)
+                    if f2 is not None:
+                        cands[f2.qualname] = (f2, c)
+                if len(cands) != 1:
+                    raise Unsupported('method %s.%s not found (line %s)' % (cname, mname, n.lineno))
+                fi, sub = list(cands.values())[0]
+                self.assumptions.append('%s: receiver of .%s() at `%s` is assumed to be an instance of %s (the only class family defining it; otherwise Python raises AttributeError)'
+                                        % (self.cur_spec.name if self.cur_spec else '?', mname, ast.unparse(n)[:60], fi.qualname.rsplit('.', 1)[0]))
+                o = SV(Ty('ref', fi.qualname.rsplit('.', 1)[0].rsplit('.', 1)[-1]), o.t, meta=o.meta)
+                cname = o.ty.args[0]
             over = self.repo.overriders(cname, mname)
             spec = self.spec_for_call(fi)
             if over and spec is None and not (o.meta and o.meta.get('exact')):
@@ -1003,7 +1024,7 @@ class Engine(object):
             except Exception:
                 txt = None
             for (m, body) in gsrc:
-                if m == txt:
+                if m == txt or (m.startswith('re:') and txt is not None and re.fullmatch(m[3:], txt)):
                     ghost = body
                     for g in body:
                         for x in ast.walk(g):
